@@ -232,6 +232,13 @@ def check_euler_step(rec, netname, spacedesc, chem=None, label="euler step = law
                 elif status == "inconclusive":
                     rec.oblig(name, "inconclusive", "solver unknown/timeout", secs, desc)
                 else:
+                    # prefer a counterexample whose deviation is far above rounding, so that the replay on the real (binary64) build shows it
+                    exp_t = X(s, i) + I.toreal(dt) * law[(s, i)]
+                    dev = x1 - exp_t
+                    mag = z3.If(exp_t >= 0, exp_t, -exp_t)
+                    r2, m2 = I.check(z3.Or(dev > 1 + mag / 1000, -dev > 1 + mag / 1000))
+                    if r2 == "sat":
+                        m = m2
                     rchem = chem
                     if flags is not None:
                         rchem = [int(model_value(m, f)) for f in flags]
